@@ -82,6 +82,10 @@ def pair3(ctx, fi: FuncInfo) -> int:
     W, N = strip_wrappers(R.args[0]), strip_wrappers(R.args[1])
     wparam = sym([p.name for p in fi.params][0])
     pair = any(x.op == "getitem" and x.args[0] is wparam and is_const(x.args[1], 1) for x in subterms(R))
+    if not pair:
+        # the spin blocks handled by one loop / map over the [up, dn] list: element 1 of the result exists by construction
+        w1 = getitem(W, const(1))
+        pair = not (w1.op == "getitem" and w1.args[0] is W)
     n = 0
     spins = (0, 1) if pair else (None,)
     for s in spins:
